@@ -921,7 +921,6 @@ typedef struct
   BusService     *service;
   BusOwner       *before_owner; /* restore to position before this connection in owners list */
   DBusList       *owner_link;
-  DBusList       *service_link;
   DBusPreallocatedHash *hash_entry;
 } OwnershipRestoreData;
 
@@ -931,19 +930,27 @@ restore_ownership (void *data)
   OwnershipRestoreData *d = data;
   DBusList *link;
 
-  _dbus_assert (d->service_link != NULL);
   _dbus_assert (d->owner_link != NULL);
   
   if (d->service->owners == NULL)
     {
+      /* the service was unlinked when its last owner went away; any other
+       * time the preallocated entry stays with us and is released by
+       * free_ownership_restore_data() */
       _dbus_assert (d->hash_entry != NULL);
       bus_service_relink (d->service, d->hash_entry);
+      d->hash_entry = NULL;
     }
+
+  /* bus_service_swap_owner() only moved the owner to second place: take
+   * that link out again. bus_service_remove_owner() unlinked the owner
+   * and dropped the list's reference to it: take that reference back. */
+  link = _dbus_list_find_last (&d->service->owners, d->owner);
+  if (link != NULL)
+    _dbus_list_remove_link (&d->service->owners, link);
   else
-    {
-      _dbus_assert (d->hash_entry == NULL);
-    }
-  
+    bus_owner_ref (d->owner);
+
   /* We don't need to send messages notifying of these
    * changes, since we're reverting something that was
    * cancelled (effectively never really happened)
@@ -959,16 +966,10 @@ restore_ownership (void *data)
   
   _dbus_list_insert_before_link (&d->service->owners, link, d->owner_link);
 
-  /* Note that removing then restoring this changes the order in which
-   * ServiceDeleted messages are sent on destruction of the
-   * connection.  This should be OK as the only guarantee there is
-   * that the base service is destroyed last, and we never even
-   * tentatively remove the base service.
+  /* The owner stayed in its connection's list of owned services all the
+   * time (we hold a reference to it, so bus_owner_unref() never got
+   * that far): nothing to restore there.
    */
-  bus_connection_add_owned_service_link (d->owner->conn, d->service_link);
-  
-  d->hash_entry = NULL;
-  d->service_link = NULL;
   d->owner_link = NULL;
 }
 
@@ -977,8 +978,6 @@ free_ownership_restore_data (void *data)
 {
   OwnershipRestoreData *d = data;
 
-  if (d->service_link)
-    _dbus_list_free_link (d->service_link);
   if (d->owner_link)
     _dbus_list_free_link (d->owner_link);
   if (d->hash_entry)
@@ -1006,7 +1005,6 @@ add_restore_ownership_to_transaction (BusTransaction *transaction,
   
   d->service = service;
   d->owner = owner;
-  d->service_link = _dbus_list_alloc_link (service);
   d->owner_link = _dbus_list_alloc_link (owner);
   d->hash_entry = _dbus_hash_table_preallocate_entry (service->registry->service_hash);
   
@@ -1031,8 +1029,7 @@ add_restore_ownership_to_transaction (BusTransaction *transaction,
       link = _dbus_list_get_next_link (&service->owners, link);
     }
   
-  if (d->service_link == NULL ||
-      d->owner_link == NULL ||
+  if (d->owner_link == NULL ||
       d->hash_entry == NULL ||
       !bus_transaction_add_cancel_hook (transaction, restore_ownership, d,
                                         free_ownership_restore_data))
